@@ -1,7 +1,330 @@
 package cluster
 
-import "verifkit/stat"
+import (
+	"fmt"
+	"strconv"
+	"strings"
+	"testing"
+	"time"
+
+	"pgregory.net/rapid"
+	"verifkit/stat"
+)
+
+func genC20Plan(rt *rapid.T) kPlan {
+	var p kPlan
+	p.Topo = genTopo(rt, kGenOpt{Bias: "c20"})
+	p.Cfg = genCfg(rt)
+	p.Cfg.RESP2 = rapid.IntRange(0, 11).Draw(rt, "resp2") == 0
+	g := &kGen{rt: rt}
+	g.slots = genSlots(rt, p.Topo, rapid.IntRange(3, 6).Draw(rt, "nSlots"), false)
+	nc := rapid.IntRange(1, 4).Draw(rt, "callers")
+	for c := 0; c < nc; c++ {
+		no := rapid.IntRange(1, 4).Draw(rt, "ops")
+		var ops []kOp
+		for i := 0; i < no; i++ {
+			gap := rapid.IntRange(0, 300).Draw(rt, "gap") // callers overlap: their batches meet on the same connections
+			if rapid.IntRange(0, 11).Draw(rt, "longGap") == 0 {
+				gap = rapid.IntRange(100000, 1300000).Draw(rt, "gapLong")
+			}
+			op := kOp{GapUs: gap, Kind: rapid.SampledFrom([]string{"multi", "multi", "multicache", "tx", "tx", "do"}).Draw(rt, "kind")}
+			switch op.Kind {
+			case "do":
+				op.Items = []kItem{{Cmds: []kCmd{g.cmd([]string{"kecho", "kset"}, g.slot())}}}
+			case "multi":
+				n := rapid.IntRange(2, 7).Draw(rt, "n")
+				for k := 0; k < n; k++ {
+					cm := g.cmd([]string{"kecho", "kecho", "kset", "get"}, g.slot())
+					g.script(&cm, 10)
+					op.Items = append(op.Items, kItem{Cmds: []kCmd{cm}})
+				}
+			case "multicache":
+				n := rapid.IntRange(2, 6).Draw(rt, "n")
+				for k := 0; k < n; k++ {
+					cm := g.cmd([]string{"get"}, g.slot())
+					g.script(&cm, 12)
+					op.Items = append(op.Items, kItem{Cmds: []kCmd{cm}})
+				}
+			case "tx":
+				// a batch around one slot (the cluster client requires that when MULTI/EXEC, which have no key, are in the batch):
+				// loose commands and 1-2 MULTI..EXEC blocks
+				op.Kind = "multi"
+				slot := g.slot()
+				nItems := rapid.IntRange(1, 4).Draw(rt, "txItems")
+				blocks := 0
+				for k := 0; k < nItems; k++ {
+					if blocks < 2 && (rapid.IntRange(0, 2).Draw(rt, "isBlock") != 0 || (k == nItems-1 && blocks == 0)) {
+						blocks++
+						g.blk++
+						it := kItem{Tx: true, ID: "b" + strconv.Itoa(g.blk)}
+						nm := rapid.IntRange(1, 3).Draw(rt, "members")
+						for m := 0; m < nm; m++ {
+							cm := g.cmd([]string{"kecho", "kset", "kset", "get"}, slot)
+							g.script(&cm, 10)
+							it.Cmds = append(it.Cmds, cm)
+						}
+						op.Items = append(op.Items, it)
+					} else {
+						cm := g.cmd([]string{"kecho", "kset"}, slot)
+						g.script(&cm, 10)
+						op.Items = append(op.Items, kItem{Cmds: []kCmd{cm}})
+					}
+				}
+			}
+			if queueLabel() == "ring" {
+				// a batch travels as one burst: only its first command may carry latency (see AGENT_NOTES, bubble rules)
+				first := true
+				for ii := range op.Items {
+					for k := range op.Items[ii].Cmds {
+						if !first {
+							op.Items[ii].Cmds[k].LatUs = 0
+						}
+						first = false
+					}
+				}
+			}
+			ops = append(ops, op)
+		}
+		p.Callers = append(p.Callers, ops)
+	}
+	var unhealed, kills bool
+	p.Events, unhealed, kills = genEvents(rt, p.Topo, g, []string{"move", "move", "move", "migrate", "migrate", "migrate", "migrate", "loop", "kill", "health"}, 4, 3000)
+	for ci := range p.Callers {
+		for oi := range p.Callers[ci] {
+			op := &p.Callers[ci][oi]
+			switch {
+			case unhealed && p.Cfg.MaxRedir == 0:
+				op.DeadlineUs = rapid.IntRange(5000, 60000).Draw(rt, "deadline")
+			case kills && rapid.Bool().Draw(rt, "deadlineOnKill"):
+				op.DeadlineUs = rapid.IntRange(2000, 200000).Draw(rt, "deadline")
+			}
+		}
+	}
+	return p
+}
 
 func c20Check(c *stat.Collector, rt stat.Fataler, plan kPlan, run kRun) (nt bool, classes []string) {
-	return false, nil
+	cls := map[string]bool{}
+	if run.Pending > 0 || run.Res.Deadlock {
+		c.Fail(rt, "C20.no-hang", fmt.Sprintf("%d calls never returned %v (%s)", run.Pending, run.PendingOps, run.Res), plan)
+	}
+	if run.Res.Panic != nil {
+		c.Fail(rt, "C20.no-panic", run.Res.String(), plan)
+	}
+	obs := kObserve(plan, run)
+	faulty, _ := kFaulty(plan, run)
+	// planned blocks by member uid
+	type blockRef struct {
+		it     *kItem
+		ci, oi int
+	}
+	blockOf := map[string]blockRef{}
+	opOf := map[string][2]int{}
+	plan.eachCmd(func(ci, oi int, op *kOp, cm *kCmd, it *kItem) {
+		opOf[cm.UID] = [2]int{ci, oi}
+		if it.Tx {
+			blockOf[cm.UID] = blockRef{it, ci, oi}
+		}
+	})
+	// (1) every result position holds the reply to its own command
+	for ci := range plan.Callers {
+		for oi := range plan.Callers[ci] {
+			op := &plan.Callers[ci][oi]
+			r := run.result(plan, ci, oi)
+			if !r.Done {
+				continue
+			}
+			where := fmt.Sprintf("caller %d op %d (%s)", ci, oi, op.Kind)
+			pos := op.positions()
+			if len(r.Results) != len(pos) {
+				c.Fail(rt, "C20.positional", fmt.Sprintf("%s returned %d results for %d commands", where, len(r.Results), len(pos)), plan)
+			}
+			firstNodes := map[string]bool{}
+			redirected := false
+			hasTx := false
+			for pi, p := range pos {
+				if clause, detail := kOwnReply(plan, obs, op, r, p, r.Results[pi], faulty); clause != "" {
+					what := p.Role
+					if p.Cmd != nil {
+						what = fmt.Sprintf("%s %v", p.Cmd.UID, p.Cmd.argv())
+					}
+					c.Fail(rt, "C20.positional", fmt.Sprintf("%s position %d (%s): %s", where, pi, what, detail), plan)
+				}
+				if p.Block != nil {
+					hasTx = true
+				}
+				if p.Role != "cmd" {
+					continue
+				}
+				ss := obs.Sends[p.Cmd.UID]
+				if len(ss) > 0 {
+					firstNodes[ss[0].R.Server] = true
+				}
+				if n, _ := followed(ss); n > 0 {
+					redirected = true
+				}
+				for _, s := range ss {
+					if kind, _, _ := isRedirect(s.Eff); kind == "" && s.Eff != nil && s.Eff.IsErr() && len(ss) > 1 {
+						cls["member-retried"] = true
+					}
+				}
+				// a redirected block must be sent again (as a whole): with an unlimited budget a member never ends as a redirect
+				if p.Block != nil && plan.Cfg.MaxRedir == 0 && !faulty {
+					if err := r.Results[pi].Error(); err != nil && isRedirectErr(err) {
+						c.Fail(rt, "C20.tx-resent", fmt.Sprintf("%s: member %s of block %s ended with %v although MaxMovedRedirections is unlimited; sends: %s", where, p.Cmd.UID, p.Block.ID, err, describeSends(ss)), plan)
+					}
+				}
+			}
+			if len(pos) > 1 {
+				if len(firstNodes) >= 2 {
+					cls["batch-split>=2-nodes"] = true
+					if redirected {
+						cls["split-batch-with-redirect"] = true
+					}
+				}
+				if op.Kind == "multicache" {
+					cls["multicache"] = true
+					if redirected {
+						cls["multicache-redirected"] = true
+					}
+				}
+			}
+			if hasTx {
+				cls["tx-batch"] = true
+			}
+		}
+	}
+	// (2) every MULTI..EXEC span on a connection is one block, complete, in order, nothing foreign inside
+	attempts := map[string][]*kSpan{} // block id -> attempts
+	for _, sp := range obs.Spans {
+		where := fmt.Sprintf("%s/c%d MULTI at r%d (+%dus)", sp.Multi.Server, sp.Multi.Conn, sp.Multi.Req, sp.Multi.At)
+		var argvs []string
+		for _, m := range sp.Members {
+			argvs = append(argvs, strings.Join(m.Argv, " "))
+		}
+		unfinished := sp.Exec == nil
+		if unfinished && !(faulty || sp.Multi.Doubtful) {
+			c.Fail(rt, "C20.tx-contiguous", fmt.Sprintf("%s: the connection log ends inside the transaction %v although nothing failed", where, argvs), plan)
+		}
+		// the client's own cache wrapper: MULTI, PTTL k, GET k, EXEC
+		if len(sp.Members) > 0 && sp.Members[0].name() == "PTTL" {
+			ok := len(sp.Members) == 2 && sp.Members[1].name() == "GET" && len(sp.Members[0].Argv) == 2 && len(sp.Members[1].Argv) == 2 && sp.Members[0].Argv[1] == sp.Members[1].Argv[1]
+			if !ok && !unfinished {
+				c.Fail(rt, "C20.tx-contiguous", fmt.Sprintf("%s: cache transaction is not MULTI, PTTL k, GET k, EXEC: %v", where, argvs), plan)
+			}
+			continue
+		}
+		var ref *blockRef
+		for _, m := range sp.Members {
+			if b, ok := blockOf[uidOf(m.Argv)]; ok {
+				ref = &b
+				break
+			}
+		}
+		if ref == nil {
+			if len(sp.Members) == 0 {
+				continue // MULTI, EXEC with nothing in between: an empty block (not generated) or a block cut by a failure
+			}
+			c.Fail(rt, "C20.tx-contiguous", fmt.Sprintf("%s: commands of no transaction of the plan between MULTI and EXEC: %v", where, argvs), plan)
+		}
+		var want, got []string
+		for _, cm := range ref.it.Cmds {
+			want = append(want, cm.UID)
+		}
+		for _, m := range sp.Members {
+			got = append(got, uidOf(m.Argv)+"("+m.name()+")")
+		}
+		same := len(want) == len(sp.Members)
+		for i := 0; same && i < len(want); i++ {
+			same = uidOf(sp.Members[i].Argv) == want[i]
+		}
+		if !same && !(unfinished && len(sp.Members) < len(want)) {
+			c.Fail(rt, "C20.tx-contiguous", fmt.Sprintf("%s: between MULTI and EXEC the server read %v, the block %s of caller %d op %d is %v", where, got, ref.it.ID, ref.ci, ref.oi, want), plan)
+		}
+		attempts[ref.it.ID] = append(attempts[ref.it.ID], sp)
+		// is the check meaningful here: did another call's request arrive on this connection at the same instant?
+		reqs := obs.Conns[sp.Multi.Server+"/"+strconv.Itoa(sp.Multi.Conn)]
+		for _, r := range reqs {
+			if u := uidOf(r.Argv); u != "" && (r.Req == sp.Multi.Req-1 || (sp.Exec != nil && r.Req == sp.Exec.Req+1)) {
+				if o, ok := opOf[u]; ok && (o[0] != ref.ci || o[1] != ref.oi) && (r.At == sp.Multi.At || (sp.Exec != nil && r.At == sp.Exec.At)) {
+					cls["tx-with-foreign-neighbour"] = true
+				}
+			}
+		}
+	}
+	// (3) a member of a block is never sent outside a MULTI..EXEC span
+	for uid, ref := range blockOf {
+		for _, s := range obs.Sends[uid] {
+			if s.Span == nil {
+				c.Fail(rt, "C20.tx-member-outside-block", fmt.Sprintf("member %s of block %s (caller %d op %d) was sent on its own to %s/c%d r%d; sends: %s", uid, ref.it.ID, ref.ci, ref.oi, s.R.Server, s.R.Conn, s.R.Req, describeSends(obs.Sends[uid])), plan)
+			}
+		}
+	}
+	for id, as := range attempts {
+		_ = id
+		if len(as) < 2 {
+			continue
+		}
+		for _, sp := range as[:len(as)-1] {
+			for _, m := range sp.Members {
+				switch kind, _, _ := isRedirect(m.Reply); kind {
+				case "MOVED":
+					cls["tx-redirected-moved"] = true
+				case "ASK":
+					cls["tx-redirected-ask"] = true
+				default:
+					if m.Reply != nil && m.Reply.IsErr() {
+						cls["tx-retried"] = true
+					}
+				}
+			}
+		}
+		if as[len(as)-1].Asked {
+			cls["tx-resent-after-asking"] = true
+		}
+		nodes := map[string]bool{}
+		for _, sp := range as {
+			nodes[sp.Multi.Server] = true
+		}
+		if len(nodes) > 1 {
+			cls["tx-moved-to-other-node"] = true
+		}
+	}
+	for _, e := range plan.Events {
+		cls["event-"+e.Kind] = true
+	}
+	if faulty {
+		cls["faulty"] = true
+	}
+	for k := range cls {
+		classes = append(classes, k)
+	}
+	nt = cls["split-batch-with-redirect"] || cls["tx-redirected-moved"] || cls["tx-redirected-ask"]
+	return nt, classes
+}
+
+func TestVerif_C20_Batches(t *testing.T) {
+	c := stat.For("C20", "batches-"+queueLabel()).Rule("timed plans in a synctest bubble against the cluster personality of the fake server (topologies as in C19): 1-4 overlapping callers x 1-4 calls: DoMulti of 2-7 uniquely tagged keyed commands over 3-6 slots, DoMultiCache of 2-6 GETs, single-slot DoMulti batches with 1-2 MULTI..EXEC blocks (1-3 members) and loose commands around them; slot moves, migrations with a generated set of moved keys (ASK), contradicting views (loops), kills, scripted TRYAGAIN/LOADING/CLUSTERDOWN (retries), MaxMovedRedirections 0-3; oracle from the servers' logs: result i is the reply the servers gave to the last send of command i (MULTI/EXEC: of the last attempt of their block), on every server connection each MULTI..EXEC span holds exactly the members of one block of the plan in order (or the client's own PTTL/GET cache pair) and is complete, no member of a block is ever sent outside such a span, and with an unlimited redirect budget no member ends as a redirect error; non-trivial = a batch first sent to >= 2 nodes with a redirected member, or a transaction block that was sent again after a MOVED/ASK answer to a member")
+	defer c.Flush()
+	rapid.Check(t, func(rt *rapid.T) {
+		plan := genC20Plan(rt)
+		if plan.askCacheWithoutCache() && c.Known("C20.domulticache-ask-nocache-panic") {
+			plan.Cfg.RESP2 = false
+		}
+		saveCase("c20", plan)
+		t0 := time.Now()
+		run := kRunPlan(t, plan)
+		kSlow("c20", plan, t0)
+		if run.Res.Frozen {
+			c.Inconclusive("virtual-clock-freeze")
+			return
+		}
+		if run.NewErr != "" {
+			c.Inconclusive("new-client-failed")
+			return
+		}
+		nt, classes := c20Check(c, rt, plan, run)
+		c.Eval(nt, planKey(plan), classes...)
+		c.Sample(nt, func() any { return plan })
+	})
 }
